@@ -11,7 +11,10 @@ COMMON_NOTE = (
     "Quot.sound; no sorry/native_decide/own axioms). The Lean model is hand-written; it is tied to /repo's working tree by "
     "the correspondence check of this command (same inputs through the real Python code in-process and through the compiled "
     "model driver). Exact rationals stand for IEEE floats (rounding in numpy/numba is outside the theorems); numpy, numba, "
-    "pandas, netCDF4, PyYAML/tomli are exercised, not proved. ")
+    "pandas, netCDF4, PyYAML/tomli are exercised, not proved. The whole simulation is a term of the model (Sim.run: clock, grid, "
+    "per-node time machine, releaser, time loop, output files) with composition theorems (Props/Whole*, Sim*); besides its "
+    "function-grain streams a check may therefore run whole simulations of generated scenarios on the real program against "
+    "Sim.run (streams `whole-run-*`, `warm-*`). ")
 
 P = {
  "C01": ("Theorems: Tracker.update is the EF/midpoint/RK4 explicit Runge-Kutta step with stage times 0,1/2,1/2,1 for every forcing oracle "
